@@ -495,8 +495,11 @@ class Result:
         self.coverage = {}
         self.assumptions = []
         self.notes = []
+        self.diagnosis = {}       # extra diagnosis copied into every replay object (tie_by_translation when it failed)
 
     def violation(self, replay_obj, tag, no_input=False):
+        if self.diagnosis and isinstance(replay_obj, dict):
+            replay_obj = dict(replay_obj, extra_diagnosis=self.diagnosis)
         d = workdir("replays")
         path = os.path.join(d, "%s_%s.json" % (self.prop, tag))
         n = 1
@@ -589,6 +592,82 @@ def obligations_or_violation(res, prop_files):
             res.violation(dict(kind="proof-obligation", problems=ck["problems"], theorem_files=prop_files,
                                checker="coqchk"), "coqchk", no_input=True)
     return ob
+
+
+# ------------------------------------------------------------------------------------------------
+# the second tie: translation of the source text (DESIGN 8.8)
+
+GEN = os.path.join(WORK, "gen")
+
+
+def _first_coq_error(out, src):
+    """`File "..", line N, ..: Error: ...` of coqc as one line, prefixed with the lemma the line belongs to."""
+    m = re.search(r'File "([^"]+)", line (\d+), characters [\d-]+:\s*Error:\s*(.*)', out, re.S)
+    if not m:
+        return " ".join(out.split())[:300] or "coqc failed without output"
+    lemma = ""
+    try:
+        head = open(m.group(1) if os.path.isabs(m.group(1)) else src).read().split("\n")[:int(m.group(2))]
+        names = re.findall(r"(?m)^\s*(?:Lemma|Definition)\s+([\w']+)", "\n".join(head))
+        lemma = (names[-1] + ", ") if names else ""
+    except OSError:
+        pass
+    msg = " ".join(m.group(3).split())
+    core = re.search(r"(Unable to unify|The term|The reference|Cannot|No matching|Tactic failure|Found no subterm|"
+                     r"Unknown|Illegal|Syntax error).*", msg)      # without the `In environment ...` preamble
+    return "%s%s line %s: %s" % (lemma, os.path.relpath(src, COQ), m.group(2), (core.group(0) if core else msg)[:400])
+
+
+def tie_by_translation(res, target, equiv):
+    """Regenerate coq/Gen/<Target>Gen.v from /repo's source text (tools/rs2v.py) and have Coq prove it equal to the
+    hand-written model (coq/Check/<equiv>.v), for every Num F. Both files are compiled into work/gen/ and are not part of
+    _CoqProject, so a change of /repo never invalidates the main build. Writes res.coverage["tie_by_translation"].
+    NEVER a violation by itself: when the translator meets something outside its subset, or the equivalence stops
+    proving, the sampling correspondence decides exactly as without this step; a failed equivalence is kept in
+    res.diagnosis and lands in the replay object of whatever the correspondence then reports."""
+    t0 = time.time()
+    status, diag = None, None
+    try:
+        make_coq()
+        os.makedirs(GEN, exist_ok=True)
+        gdir = os.path.join(COQ, "Gen")
+        rc, out = sh([sys.executable, os.path.join(VERIF, "tools", "rs2v.py"), "--target", target, "--repo", REPO,
+                      "--out", gdir], timeout=120)
+        said = [ln for ln in out.split("\n") if ln.startswith("rs2v: ")]
+        if rc != 0 or not out.strip():
+            status = "translator: " + (said[0][len("rs2v: "):] if said else "internal error: " + " ".join(out.split())[-300:])
+        else:
+            info = json.loads(out.strip().split("\n")[-1])
+            eq = os.path.join(COQ, "Check", equiv + ".v")
+            for src in (info["out"], eq):
+                vo = os.path.join(GEN, os.path.basename(src)[:-2] + ".vo")
+                if os.path.exists(vo):
+                    os.remove(vo)
+                rc, out = sh(["coqc", "-noglob", "-Q", COQ, "Alator", "-Q", GEN, "Alator.Gen", "-o", vo, src], timeout=300)
+                if rc != 0:
+                    status = "equivalence no longer proves: " + _first_coq_error(out, src)
+                    break
+            else:
+                asked = len(re.findall(r"(?m)^\s*Print Assumptions", strip_comments(open(eq).read())))
+                if out.count("Closed under the global context") != asked or "Axioms:" in out:
+                    status = "equivalence no longer proves: %s depends on axioms: %s" % (equiv, " ".join(out.split())[:300])
+            src_rel = os.path.relpath(info["source"], REPO)
+            if status is None:
+                status = "proved: Gen.{%s} = Model.{%s} for every Num F (regenerated from %s at this run)" % (
+                    ", ".join(g for g, _ in info["pairs"]), ", ".join(m for _, m in info["pairs"]), src_rel)
+                res.coverage["tie_by_translation_lemmas"] = re.findall(r"(?m)^\s*Lemma\s+(gen_[\w']+)", open(eq).read())
+            else:
+                diag = dict(finding=status, source=src_rel, generated_file=info["out"], equivalence_file=eq,
+                            generated=open(info["out"]).read())
+    except Exception as e:       # a timeout, a missing tool: still not an alarm
+        status = "equivalence no longer proves: the step itself failed (%r)" % (e,)
+    res.coverage["tie_by_translation"] = status
+    res.coverage["tie_by_translation_s"] = round(time.time() - t0, 2)
+    if not status.startswith("proved"):
+        res.diagnosis["tie_by_translation"] = diag or dict(finding=status)
+        res.notes.append("tie by translation: %s — no alarm by itself, the sampling correspondence decides as without "
+                         "this step" % status)
+    return status
 
 
 def load_corpus(prop):
